@@ -197,6 +197,12 @@ class Beh:
                 built["overall"] = [cells(c_) for c_ in np.asarray(smp.cm(th).matrix)]
             except Exception as ex:  # noqa
                 built["exc"] = sd.exc_str(ex)
+        if built["exc"].startswith("ScriptMismatch") and script is not None:
+            # the implementation's RNG calls are not the modelled sequence (conformance drift): the scripted
+            # outcome cannot be replayed - observe a run of the real generator instead
+            del self.evs[-1]                                   # the StartG of the failed replay
+            self.ev("ScriptDrift", why=built["exc"][:160])
+            return self.sample(s, h, h2, c, script=None, np_seed=len(script) + 17)
         for d in sh.calls:
             self.ev("Draw", **d)
         self.ev("BuiltG", **built)
